@@ -9,6 +9,7 @@
 -/
 import Sbdf.Lemmas.WSpec
 import Sbdf.Lemmas.Canon
+import Sbdf.Lemmas.SortFold
 import Sbdf.Gen.Tables
 import Sbdf.Props.C02
 import Sbdf.Props.C04
@@ -242,5 +243,29 @@ theorem sizes_match_code : ∀ id ∈ List.range 256,
 example : foldCols [⟨[97], some ⟨2, [[1,0,0,0]]⟩, none⟩, ⟨[98], some ⟨2, [[1,0,0,0]]⟩, none⟩,
     ⟨[97], some ⟨2, [[2,0,0,0]]⟩, none⟩] = .ok [⟨[97], some ⟨2, [[1,0,0,0]]⟩, none⟩, ⟨[98], some ⟨2, [[1,0,0,0]]⟩, none⟩] := by
   rfl
+
+/-! ### the folding as the C code computes it (two `qsort`s around a scan of neighbours)
+
+`sbdf_tm_write` does not walk the entries in order like the model's `foldCols`: it collects every
+entry of every column with a running index (`SortFold.index`), sorts the array by (name, index),
+scans it comparing neighbours of equal name and keeping the first of each group
+(`SortFold.scan`), and sorts what is kept back by index.  `Lemmas/SortFold.lean` proves that this
+computes `foldCols` — for any arrangement the two sorts may return that their comparators accept
+as sorted (`SortFold.Arr`; the comparators are strict total orders on the items, so `qsort` has no
+choice), without assuming anything about the sorting algorithm. -/
+
+/-- refinement: the sort-based folding of the C code = the model's folding, on every list of
+    column entries: the same error, or the same kept entries in the same order -/
+theorem sorted_fold_refines (t : TM) (s : List SortFold.Item)
+    (h : SortFold.Arr (SortFold.index 0 (t.cols.flatMap (·.entries))) s) :
+    match SortFold.scan none s [] with
+    | .error st => foldCols (t.cols.flatMap (·.entries)) = .error st
+    | .ok kept => ∀ r : List SortFold.Item, r.Perm kept → r.Pairwise SortFold.ltOrd →
+        foldCols (t.cols.flatMap (·.entries)) = .ok (r.map (·.e)) :=
+  SortFold.tm_write_fold_refines _ s h
+
+/-- such an arrangement always exists (the statement above is never vacuous) -/
+theorem sorted_array_exists (t : TM) : ∃ s, SortFold.Arr (SortFold.index 0 (t.cols.flatMap (·.entries))) s :=
+  SortFold.arr_exists _
 
 end Sbdf.C03
